@@ -64,6 +64,51 @@ def rules(ctx, db):
                "peer-chosen length must be compared with what is buffered before it is added to / used as an "
                "offset%s" % ((": " + "; ".join(sorted(set(bad)))) if bad else ""), f)
     ctx.floor("R1", "integers decoded from input in extract impls", n_src, 2)
+    # completeness tests are strict: a buffer holding *exactly* a complete frame (e.g. a header with an empty
+    # payload, or header + exactly `len` bytes) is complete
+    for f in ext:
+        if not calls(f, FROM_BYTES):
+            continue
+        nones = [bi for bi, si, s in f.stmts() if s.get("r", {}).get("k") == "agg" and s["r"].get("adt") == "core::option::Option" and s["r"].get("var") == "None"]
+        tests = 0
+        bad = []
+        from ..util import value_switches
+        for bi, si, s in f.stmts():
+            r = s.get("r", {})
+            if r.get("k") != "bin" or r.get("x") not in ("Lt", "Le", "Gt", "Ge"):
+                continue
+            # which operand is "what is buffered" (derived from the slice's len())?
+            side = None
+            for i, o in enumerate(r["ops"]):
+                pp = op_place(o)
+                if pp is not None and any(call_matches(ct, r"::len$") for _, ct in data_deps(f, pp["l"])[1]):
+                    side = i
+            if side is None:
+                continue
+            rel = r["x"] if side == 0 else {"Lt": "Gt", "Le": "Ge", "Gt": "Lt", "Ge": "Le"}[r["x"]]   # buffered REL needed
+            for sw in value_switches(f, s["a"]["l"], through_calls=None):
+                if sw["kind"] != "bool":
+                    continue
+                f_t, t_t = sw["targets"].get("0"), sw["otherwise"]
+                if f_t is None:
+                    continue
+                if sw["inverted"]:
+                    f_t, t_t = t_t, f_t
+                # the edge that leads to `Ok(None)` (incomplete)
+                for edge_true, tgt in ((True, t_t), (False, f_t)):
+                    other_sw = {bx for bx, blk in enumerate(f.blocks) if blk["t"]["k"] == "switch" and bx != sw["bb"]}
+                    if tgt in other_sw:
+                        continue
+                    if any(n in f.cfg.reach_from_block(tgt, avoid=other_sw) and f.cfg.edge_dominates(sw["bb"], tgt, n) for n in nones):
+                        tests += 1
+                        holds = rel if edge_true else {"Lt": "Ge", "Le": "Gt", "Gt": "Le", "Ge": "Lt"}[rel]
+                        # incomplete must mean: buffered < needed  (strict)
+                        if holds != "Lt":
+                            bad.append("L%d: reports 'incomplete' when buffered %s needed" % (s["ln"], {"Le": "<=", "Gt": ">", "Ge": ">="}.get(holds, holds)))
+        ctx.ob("R1", "completeness-tests-are-strict:" + f.name, tests >= 1 and not bad,
+               "extract answers 'incomplete' only when strictly fewer bytes are buffered than needed; with `<=` a frame "
+               "whose payload is empty (or exactly fills the buffer) is held back or dropped at end of stream%s" % (
+                   (": " + "; ".join(bad)) if bad else ""), f)
 
     # ---------------- R1b CMSG pairing
     users = [f for f in db.fns.values() if calls(f, r"^libc::.*CMSG_DATA$")]
